@@ -271,6 +271,13 @@ def check(ctx):
     rule_pipeline(ctx)
     rule_take_axis(ctx)
     rule_reindex_like(ctx)
+    # the lookup reindex_axis relies on: locate_many's contract (searchsorted through argsort, mapped back, out-of-range clipped) - shared with C01
+    from . import c01
+    from ..report import Renamed
+    ctx.rule('R6', 'locate_many contract: searchsorted over argsort(values), mapped back through the sorter, past-the-end clipped', 2)
+    c01.rule_locate_many(Renamed(ctx, {'*': 'R6'}))
+    # reindex_axis(values, axis=k) fills through put(..., axis=k): the (index, axis) form of _get_indices (shared with C01)
+    c01.rule_axis_argument(ctx, rid='R7')
     ctx.not_decided += ['slice-by-slice equality with the original data', 'identity on own labels', 'searchsorted neighbour semantics for method=']
-    ctx.trusted += ['ndarray.take(indices, axis=) semantics', 'locate_many contract (C01-R4)']
+    ctx.trusted += ['ndarray.take(indices, axis=) semantics', 'np.searchsorted / ndarray.take(mode=clip) semantics']
     return EXPLANATION
